@@ -192,6 +192,14 @@ func buildLoggers(p params, w io.Writer) (lgs []zerolog.Logger, derive func(i in
 	case "console", "consolefail": // (consolefail: the destination rejects the first line it is handed - see recW)
 		dst = zerolog.ConsoleWriter{Out: w, NoColor: true, PartsExclude: []string{"time"}}
 	}
+	if p.writer == "consoleorder" {
+		// built by the constructor and with a field order: whatever the constructor prepares is shared by the
+		// value copies every Write makes (a lazily filled index would be written by the first events of all goroutines)
+		dst = zerolog.NewConsoleWriter(func(cw *zerolog.ConsoleWriter) {
+			cw.Out, cw.NoColor, cw.PartsExclude = w, true, []string{"time"}
+			cw.FieldsOrder = []string{"z", "n", "k", "g", "svc", "child", "a"}
+		})
+	}
 	root := zerolog.New(dst)
 	if p.logger == "derived" {
 		root = root.Hook(addHook{}).Hook(tagHook{-1}).Hook(tagHook{-2}).With().Str("parent", "ctx").Logger()
@@ -410,6 +418,7 @@ func plans(tier string) []drv.Plan {
 	add("children/synclevel/tiny,tiny;nested", b2)
 	add("shared/console/tiny,nested;tiny", b2)
 	add("children/console/big;tiny", b3)
+	add("shared/consoleorder/tiny,nested;tiny", b2)
 	add("shared/consolefail/tiny,tiny;tiny", b2)
 	add("children/consolefail/tiny;nested", b2)
 	add("shared/plain/huge;tiny,tiny", 1)
